@@ -54,6 +54,8 @@ def gen_cases(tier, seed):
                     yield {'k': 'hist', 'cfg': ci, 'h': list(h), 'same_obj': True}          # re-saves reuse the recording OBJECT; every save also goes to a second cassette
                 if n >= 2 and any(letters[i][0] in ('save', 'resave') for i in h[:-1]) and ci in (1, 3, 5):
                     yield {'k': 'hist', 'cfg': ci, 'h': list(h), 'long_cat': True}          # categories with very long names
+                if n >= 2 and any(letters[i][0] in ('save', 'resave') for i in h[:-1]) and ci in (1, 2, 4):
+                    yield {'k': 'hist', 'cfg': ci, 'h': list(h), 'dotted_cat': True}
 
 
 HLETTERS = [('save', 0), ('save', 1), ('save', 2), ('resave', 0), ('get', 0), ('get', 1), ('get', 2), ('meta', 0), ('meta', 2),
@@ -205,6 +207,8 @@ def _hist_content(i, version):
 def _hist(case, box):
     from playback.exceptions import NoSuchRecording
     cats = ['Op', 'Op', 'OpX']
+    if case.get('dotted_cat'):   # dotted (module-qualified) operation names: the ids contain dots
+        cats = ['billing.v2.Invoice', 'billing.v2.Invoice', 'billing.v2']
     if case.get('long_cat'):
         long = 'LongOperationName' * 8   # 136 characters: beyond any 128-character shortcut, within the file-system limit
         cats = [long, long, long + 'X']
@@ -297,6 +301,8 @@ def _hist(case, box):
             cat = arg
             probe = c.create_new_recording(cat).id
             bogus = probe[:-4] + 'beef'
+            if case.get('dotted_cat') and ids:
+                bogus = sorted(ids.values())[0] + '.bak'   # a saved id followed by a dot and more text was never saved either
             try:
                 got = c.get_recording(bogus) if op == 'get-unknown' else c.get_recording_metadata(bogus)
                 exc = None
